@@ -1052,6 +1052,7 @@ LINKS = [
     ("inc/world_lookup_standin.rs", "impl TableLookup", "new", "inc/lookup_body.rs", "impl TableLookup", "new", {}),
     ("inc/world_core.rs", "impl<T> Timer<T>", "schedule_in", "inc/timer_body.rs", "impl<T> Timer<T>", "schedule_in", {"pending @": "pending ( )", "key . deadline . t as int == tclock ( ) + dur_nanos ( deadline )": "key . deadline . t as int == tclock ( ) + dur_nanos ( deadline )"}),
     ("inc/world_core.rs", "impl<T> Timer<T>", "cancel", "inc/timer_body.rs", "impl<T> Timer<T>", "cancel", {"pending @": "pending ( )"}),
+    ("inc/world_core.rs", "impl<T> Timer<T>", "is_empty", "inc/timer_body.rs", "impl<T> Timer<T>", "is_empty", {"pending @": "pending ( )"}),
 ]
 
 
